@@ -186,6 +186,12 @@ class GraphWorld:
             from workload import Workload
 
             self._wl = Workload.from_task_graphs({self.tg.name: self.tg})
+            for nm in ("Workload",):  # the default logger prints DEBUG lines to stdout
+                lg = logging.getLogger(nm)
+                lg.handlers = [logging.NullHandler()]
+                lg.propagate = False
+                lg.setLevel(logging.CRITICAL)
+            self._wl._logger = _LOG
         return self._wl
 
     # -- the case for the Lean driver ---------------------------------------
